@@ -158,6 +158,21 @@ func runC34(c *core.Ctx) {
 				"the start condition no longer combines the strict rounds-per-epoch test with the forced-start test")
 			// same-branch bookkeeping
 			flag, start := false, false
+			cleared := false
+			for _, b2 := range fn.Blocks {
+				if !st.Block().Dominates(b2) {
+					continue
+				}
+				for _, in := range b2.Instrs {
+					if s3, ok := in.(*ssa.Store); ok && isRecvFieldAddr(fn, s3.Addr, "nextEpochStartRound") {
+						if k := c.P.Const(pkg, "disabledRoundForForceEpochStart"); k != nil && core.ExprKey(s3.Val) == k.Val().ExactString() {
+							cleared = true
+						}
+					}
+				}
+			}
+			c.Check(cleared, "C34/epoch-increment-once", "trigger.Update/forced-round-cleared", st.Pos(), "a (possibly forced) start round is consumed: nextEpochStartRound is reset to the disabled value when the epoch starts",
+				"the forced start round is not cleared when the epoch starts: it stays in the past and the next Update after SetProcessed starts yet another epoch one round later")
 			for _, in := range st.Block().Instrs {
 				if s2, ok := in.(*ssa.Store); ok {
 					if isRecvFieldAddr(fn, s2.Addr, "isEpochStart") {
